@@ -229,9 +229,13 @@ def oracle(case: Case, out: str):
     if head == "enc":
         if cont == "enc.own" and all(v < n for _, v, _ in items):
             idx = show_list(v for _, v, _ in items)
-            want = f"OK own {idx} {idx} {show_list(name_tok(names[v]) for _, v, _ in items)} {idx} {idx}"
-            if out != want:
-                return ("not-idempotent", f"encoding an already encoded array gave {out}, expected {want}")
+            f = out.split()
+            if len(f) != 7 or f[:3] != ["OK", "own", idx] or f[5] != idx or f[6] != idx:
+                return ("not-idempotent", f"encoding the already encoded array {idx} gave {out}")
+            if f[3] != idx:
+                return ("decode-mismatch", f"decode() gave members {f[3]}, expected {idx}")
+            if f[4] != show_list(name_tok(names[v]) for _, v, _ in items):
+                return ("decode-to-str-mismatch", f"decode_to_str() gave {f[4]}")
         return None
     if not items:
         if head in ("seq", "int", "str", "obj") and out != "OK own - - - - -":
